@@ -29,6 +29,19 @@ theorem C07_theship_replies (cfg : Config) (st : State) (h : TheShip.Spec.wf cfg
   have := (decodes_rules TheShip.ENGINE st.rules hrn (fun r hr => by simpa using hrl r hr) hrd).run
   simpa [expectedRules, TheShip.ENGINE, Engine.new] using this
 
+/-- The whole query (socket, three requests, three replies each in one datagram, decode, conversion) against any
+well-formed The Ship server, for every port, retry count and behaviour of the external decoders: the response
+is the one the SPEC entitles the user to.  (Challenge rounds and split transports are covered by the tie and by
+C09/C08; the theorem is for the plain exchange.) -/
+theorem C07_theship (ext : Ext) (port retries : Nat) (cfg : Config) (st : State) (h : TheShip.Spec.wf cfg st = true)
+    (hl1 : (reply 0x49 (encSourceInfo cfg.upper st.info)).length ≤ 6144)
+    (hl2 : (reply 0x44 (encPlayers st.players)).length ≤ 6144)
+    (hl3 : (reply 0x45 (encRules st.rules)).length ≤ 6144) :
+    (TheShip.query ext port retries (Net.init [.opened
+        [.data (reply 0x49 (encSourceInfo cfg.upper st.info)), .data (reply 0x44 (encPlayers st.players)),
+         .data (reply 0x45 (encRules st.rules))]] [])).1 = TheShip.Spec.expected st :=
+  TheShip.query_single ext port retries cfg st h hl1 hl2 hl3
+
 /-- What is required and what its absence is: without ship fields, without players, without rules, or with a
 player lacking deaths/money the conversion fails with `PacketBad` — it never fabricates a value. -/
 theorem C07_theship_required (r : Valve.Response) :
@@ -77,4 +90,14 @@ example :
     TheShip.Spec.wf cfg st = true
     ∧ (TheShip.Spec.expected st).toOption.map (fun r => (r.mode, r.witnesses, r.duration, r.players)) =
         some (1, 2, 3, [⟨[80], -3, 0x41200000, 2, 500⟩]) := by
+  decide
+
+-- non-vacuity of the whole-query theorem: the same state through the real exchange
+example :
+    let st : State := ⟨⟨17, [83], [109], [115, 104, 105, 112], [84], 2400, 1, 8, 0, .dedicated, .linux, false, true,
+      some ⟨1, 2, 3⟩, [49], some ⟨some 27015, none, none, none, some [107], none⟩, false, none⟩,
+      [⟨[80], -3, 0x41200000, some 2, some 500⟩], [([97], [98])]⟩
+    (TheShip.query ⟨fun _ => none, fun _ => 0⟩ 27015 1 (Net.init [.opened
+        [.data (reply 0x49 (encSourceInfo false st.info)), .data (reply 0x44 (encPlayers st.players)),
+         .data (reply 0x45 (encRules st.rules))]] [])).1 = TheShip.Spec.expected st := by
   decide
